@@ -162,6 +162,9 @@ def run(chk):
     chk.extra["rule"] = RULE
     chk.assumptions += ["series objects are abstract identities in the model; their data is C01's subject",
                         "names lists of getm/update/copy contain one pattern (overlapping patterns make `_read` construct a series twice)"]
+    # F17: only name-addressed formats, only the renamed key
+    chk.matchers["F17"] = lambda f: f.get("clause") == "f17" and f.get("fmt") in ("h5", "mat", "tdms") and \
+        f["input"]["key"].endswith("renamed_series")
     rng = chk.rng
     drv = core.Driver()
     fl = Files()
@@ -217,6 +220,22 @@ def run(chk):
                                  clause="store-true")
             if len(chk.samples) < 3 and 4 <= len(h) <= 6:
                 chk.sample(dict(ops=[list(map(str, op)) for op in h], model_reply=a[:400]))
+        # ---- every listed series is retrievable, also after renaming a not-yet-read series of a name-addressed file (F17) ------------
+        from qats import TsDB
+        from . import c01
+        for fmt in ("h5", "ts", "csv"):
+            spec = c01.gen_spec(rng, 7, fmt, k=2, n=4, variant=0)
+            path = c01.write_file(fl.root, spec)
+            db = TsDB.fromfile(path)
+            old = db.register_keys[0]
+            db.rename(old, "renamed_series")
+            chk.count("rename-then-read")
+            for k in list(db.register_keys):
+                try:
+                    db.get(name=k, store=False)
+                except Exception as e:
+                    chk.fail("every listed series is retrievable (after rename of a not-yet-read series)",
+                             dict(format=fmt, renamed=old, key=k), "series", err_enum(e) + ": " + str(e)[:80], clause="f17", fmt=fmt)
     finally:
         fl.close()
 
